@@ -75,6 +75,17 @@ CLAIMED = {
         note="Environment fairness assumed (uncancelled gates eventually complete); abort with nobody awaiting judged after the next pull; tracked work = executor's future sets; three genuine defects are listed in known_findings.json (F7, F14, F18).",
         technique="exhaustive stop-point re-execution on a deterministic loop + TLC evaluation of observations against Settled.tla + TLC model checking of StreamQueue.tla",
     ),
+    "C07": dict(
+        category="model_checking",
+        text=("Subscribe.tla (pull-driven pipeline of map_async_iterable over the source) is model checked for one-to-one order, no loss, ending with the "
+              "source, failure only after all earlier responses and single close. Code->spec: seeded subscription operations x event sequences (0..4 "
+              "events, arbitrary payload shapes) x creation failures x ending/raising sources x gated emission and gated per-event resolvers are run through "
+              "subscribe() on a deterministic loop under every interleaving of emission, resolver completion and pulls (within a budget); TLC evaluates "
+              "S1-S6 on each run, comparing every response with Execute.tla applied to that event."),
+        design_ref="DESIGN.md 5/C07",
+        note="Trusted: Execute.tla, gqlmini renderers; one action per quiescent point; a single outstanding pull.",
+        technique="TLC model checking of Subscribe.tla + TLC evaluation of recorded subscription runs against SubscribeV.tla/Execute.tla",
+    ),
     "C09": dict(
         category="model_checking",
         text=("TLC checks the grammar theorems (spans disjoint/ordered with ignored gaps, filler insertion at every boundary invisible, Strip laws) on every string "
